@@ -56,11 +56,13 @@ theorem exec_addrs {S S' : Store} {c : Call} (hw : WF S) (h : AddrsNodup S) (hc 
   | putGroup id e t addrs =>
     simp only [exec] at hex; split at hex
     · cases hex
-    · rw [← ok_inj hex]
-      intro g hg
-      rcases List.mem_append.mp hg with hg | hg
-      · exact h g hg
-      · simp at hg; subst hg; exact hc
+    · split at hex
+      · cases hex
+      · rw [← ok_inj hex]
+        intro g hg
+        rcases List.mem_append.mp hg with hg | hg
+        · exact h g hg
+        · simp at hg; subst hg; exact hc
   | postAddrs gid e add addrs =>
     simp only [exec] at hex
     split at hex
@@ -95,24 +97,28 @@ theorem exec_addrs {S S' : Store} {c : Call} (hw : WF S) (h : AddrsNodup S) (hc 
             · rw [e']; exact h g hg
         · split at hex
           · cases hex
-          · rw [← ok_inj hex]
-            intro g' hg'
-            obtain ⟨g, hg, hcase⟩ := mem_setGroupAddrs hg'
-            rcases hcase with ⟨_, e'⟩ | ⟨_, e'⟩
-            · rw [e']; exact (List.filter_sublist).nodup (h g hg)
-            · rw [e']; exact h g hg
+          · split at hex
+            · cases hex
+            · rw [← ok_inj hex]
+              intro g' hg'
+              obtain ⟨g, hg, hcase⟩ := mem_setGroupAddrs hg'
+              rcases hcase with ⟨_, e'⟩ | ⟨_, e'⟩
+              · rw [e']; exact (List.filter_sublist).nodup (h g hg)
+              · rw [e']; exact h g hg
   | patchExpr gid e t addrs =>
     simp only [exec] at hex
     split at hex
     · cases hex
     · split at hex
       · cases hex
-      · rw [← ok_inj hex]
-        intro g' hg'
-        obtain ⟨g, hg, hcase⟩ := mem_setGroupAddrs hg'
-        rcases hcase with ⟨_, e'⟩ | ⟨_, e'⟩
-        · rw [e']; exact hc
-        · rw [e']; exact h g hg
+      · split at hex
+        · cases hex
+        · rw [← ok_inj hex]
+          intro g' hg'
+          obtain ⟨g, hg, hcase⟩ := mem_setGroupAddrs hg'
+          rcases hcase with ⟨_, e'⟩ | ⟨_, e'⟩
+          · rw [e']; exact hc
+          · rw [e']; exact h g hg
   | deleteGroup id =>
     simp only [exec] at hex; split at hex
     · cases hex
@@ -187,7 +193,9 @@ theorem exec_compact {S S' : Store} {c : Call} (h : AllCompact S) (hc : c.addrsO
   | putGroup id e t addrs =>
     simp only [exec] at hex; split at hex
     · cases hex
-    · rw [← ok_inj hex]; exact h
+    · split at hex
+      · cases hex
+      · rw [← ok_inj hex]; exact h
   | postAddrs gid e add addrs =>
     simp only [exec] at hex
     split at hex
@@ -200,14 +208,18 @@ theorem exec_compact {S S' : Store} {c : Call} (h : AllCompact S) (hc : c.addrsO
           · rw [← ok_inj hex]; exact h
         · split at hex
           · cases hex
-          · rw [← ok_inj hex]; exact h
+          · split at hex
+            · cases hex
+            · rw [← ok_inj hex]; exact h
   | patchExpr gid e t addrs =>
     simp only [exec] at hex
     split at hex
     · cases hex
     · split at hex
       · cases hex
-      · rw [← ok_inj hex]; exact h
+      · split at hex
+        · cases hex
+        · rw [← ok_inj hex]; exact h
   | deleteGroup id =>
     simp only [exec] at hex; split at hex
     · cases hex
